@@ -20,7 +20,7 @@ TECHNIQUE = (
 )
 LEVEL_TEXT = (
     "All DPTComplex and DPTEnum classes over their decode image: complete for payloads of <= 2 octets (all 6-bit values / 256 arrays); for 3..8-octet "
-    "types every octet value in every position over all-zero, all-0xFF and three accepted backgrounds plus 4,000 (40,000) random arrays, every accepted "
+    "types every octet value in every position over all-zero, all-0xFF and three accepted backgrounds plus 24,000 (300,000) random arrays (at most 12,000 (150,000) accepted ones kept), every accepted "
     "one judged. Longer payloads are sampled, hence exploration."
 )
 LEVEL_NOTE = (
@@ -153,7 +153,7 @@ def run(ctx):
     ctx.extra["complex_enum_classes"] = len(classes)
     if len(classes) < 40:
         ctx.inconclusive(f"only {len(classes)} complex/enum classes discovered")
-    n_random = ctx.scale(4000, 40000)
+    n_random = ctx.scale(12000, 150000)
     for i, cls in enumerate(classes):
         if not ctx.mine(i):
             continue
